@@ -524,6 +524,14 @@ theorem guardedStmt_sound (C : Codecs) (hC : HonestCodecs C) :
     simp only [guardedStmt, Option.some.injEq] at hg; subst hg
     simp only [runUStmt, StepOK]
     exact hk.forget_set f _ s.bytesRead k.sub (fun b h => hk.2.2.1 b h)
+  | .zeroInt f, k, k', s, hg, hk => by
+    simp only [guardedStmt, Option.some.injEq] at hg; subst hg
+    simp only [runUStmt, StepOK]
+    exact hk.forget_set f _ s.bytesRead k.sub (fun b h => hk.2.2.1 b h)
+  | .zeroInts f n, k, k', s, hg, hk => by
+    simp only [guardedStmt, Option.some.injEq] at hg; subst hg
+    simp only [runUStmt, StepOK]
+    exact hk.forget_set f _ s.bytesRead k.sub (fun b h => hk.2.2.1 b h)
   | .makeInts f g, k, k', s, hg, hk => by
     simp only [guardedStmt, Option.some.injEq] at hg; subst hg
     simp only [runUStmt]
